@@ -638,7 +638,7 @@ func verifyWire(prog *Prog, specs *Specs, w *WireDecl) *Unit {
 	// several packages of one module may share a short name: take the one that declares the type
 	var obj types.Object
 	for _, sp := range prog.ssaPkgs {
-		if sp != nil && sp.Pkg.Name() == w.Pkg {
+		if sp != nil && pkgKey(sp.Pkg) == w.Pkg {
 			if o2 := sp.Pkg.Scope().Lookup(w.Type); o2 != nil {
 				obj = o2
 			}
